@@ -243,6 +243,45 @@ def findMissingMessages (st : Store) (ec : Nat) (addr : List Char) (tc : Nat) : 
     | .ok ids first last =>
       .ok ⟨ids.map fun v => decChars ec ++ ('/' :: (hexChars a ++ ('/' :: (decChars tc ++ ('/' :: decChars v))))), first, last⟩
 
+/-! ## `FindMissingMessages` with `RpcBackfill = true` (adminserver.go:374-478, 500-512)
+
+Every missing sequence is requested from the backfill nodes; what a node answers is an input (`NodeAnswer`). A VAA that was
+served is *forwarded* to the processor's inbound channel — the same path as a gossiped `SignedVAAWithQuorum`, where it is verified
+(C01) — and is never written to the store by the admin service itself. -/
+
+inductive NodeAnswer where
+  | served (b : Bytes)   -- 200 with a decodable `vaaBytes`
+  | absent               -- 404, undecodable JSON / base64, unreachable node: try the next node, finally "not filled"
+  | failed               -- any other status: the whole call fails with Internal
+  deriving Repr, DecidableEq
+
+/-- The loop over the missing ids: forwarded byte strings (in order), unfilled ids (in order), `none` once a node failed. -/
+def backfillLoop (answer : Nat → NodeAnswer) : List Nat → List Bytes → List Nat → List Bytes × Option (List Nat)
+  | [], fwd, unf => (fwd, some unf)
+  | i :: rest, fwd, unf =>
+    match answer i with
+    | .served b => backfillLoop answer rest (fwd ++ [b]) unf
+    | .absent => backfillLoop answer rest fwd (unf ++ [i])
+    | .failed => (fwd, none)
+
+structure BackfillRes where
+  forwarded : List Bytes
+  result : Except RpcErr FmmRes
+  deriving Repr
+
+def findMissingBackfill (st : Store) (ec : Nat) (addr : List Char) (tc : Nat) (answer : Nat → NodeAnswer) : BackfillRes :=
+  match unhexChars addr with
+  | none => ⟨[], .error .badHex⟩
+  | some b =>
+    let a := copyTo32 b
+    match findGap st (ec % 65536) a (tc % 65536) with
+    | .err => ⟨[], .error .internal⟩
+    | .ok ids first last =>
+      match backfillLoop answer ids [] [] with
+      | (fwd, none) => ⟨fwd, .error .internal⟩
+      | (fwd, some unf) =>
+        ⟨fwd, .ok ⟨unf.map fun v => decChars ec ++ ('/' :: (hexChars a ++ ('/' :: (decChars tc ++ ('/' :: decChars v))))), first, last⟩⟩
+
 /-! ## Specification: what the statement says, as functions of the *history* of successful stores -/
 
 /-- A stream `(emitter chain, emitter address, target chain)`. -/
